@@ -1713,7 +1713,9 @@ def _classify(h, obs, wit):
     #    come back as the defaults.  Holds only if the attribute that differs belongs to an option the case set to its non-default value.
     if kind == "fit" and obs == "cost_function" and f.get("cost_options") and exp != got:
         attr = path.split("[")[0].split("{")[0]
-        if any(attr in COST_OPTION_PATHS[o] for o in f["cost_options"]):
+        # fast_math of the covariance formulas IS stored (identifier "..._fast"): never explained by this mechanism
+        lost = [o for o in f["cost_options"] if not (o == "fast_math" and f.get("fid") in ("chi2_cov", "ga_cov"))]
+        if any(attr in COST_OPTION_PATHS[o] for o in lost):
             return "C09/cost-function-options-not-stored"
     # -- dynamic_error_algorithm is not part of the file format
     if obs == "dynamic_error_algorithm" and exp == "iterative" and got == "nonlinear":
